@@ -6,6 +6,7 @@ import (
 	"fmt"
 	"runtime"
 	"sync"
+	"sync/atomic"
 	"time"
 )
 
@@ -26,6 +27,9 @@ type cron struct {
 
 type cronJob struct {
 	disable bool
+	// spooled is set while the job sits in the spool for the coming tick,
+	// so that it is never queued twice for the same minute
+	spooled atomic.Bool
 
 	job gen.CronJob
 
@@ -63,6 +67,7 @@ func createCron(node gen.Node) *cron {
 				break
 			}
 			cj := item.(*cronJob)
+			cj.spooled.Store(false)
 			if cj.disable == true {
 				continue
 			}
@@ -341,6 +346,10 @@ func (c *cron) scheduleJob(cj *cronJob) {
 		return
 	}
 	if cj.mask.IsRunAt(next) == false {
+		return
+	}
+	if cj.spooled.CompareAndSwap(false, true) == false {
+		// already queued for the coming tick
 		return
 	}
 	c.spool.Push(cj)
